@@ -14,6 +14,17 @@ type verifCoder struct{ c Code }
 func (v verifCoder) Error() string { return "verif coder" }
 func (v verifCoder) ErrCode() Code { return v.c }
 
+// verifCoderWrap: an ErrCoder that wraps another error (e.g. an *Error with a
+// different code): ErrorCode reports the outer code.
+type verifCoderWrap struct {
+	c     Code
+	inner error
+}
+
+func (v verifCoderWrap) Error() string { return "coder wrapping an error" }
+func (v verifCoderWrap) ErrCode() Code { return v.c }
+func (v verifCoderWrap) Unwrap() error { return v.inner }
+
 type verifPtrCoder struct{ c Code }
 
 func (v *verifPtrCoder) Error() string { return "verif ptr coder" }
@@ -26,7 +37,9 @@ func verifHandlerError() (error, *Error) {
 	code := Code(nondetInt32("code"))
 	var err error
 	var top *Error
-	switch nondetChoice("base", 8) {
+	switch nondetChoice("base", 9) {
+	case 8:
+		err = verifCoderWrap{c: code, inner: &Error{Code: Code(nondetInt32("innercode")), Message: "inner"}}
 	case 0:
 		e := &Error{Code: code, Message: nondetString("msg", 2)}
 		if nondetBool("hasdata") {
